@@ -269,6 +269,67 @@ struct TsOneLeft(u8, #[serde(skip)] u8);
 #[derive(serde::Serialize, Debug, Clone)]
 struct TsNoneLeft(#[serde(skip)] u8);
 
+/// Variant and field names are symbols with exactly the name Serde hands over,
+/// whatever it looks like (renamed fields, raw identifiers, other alphabets).
+const ODD_NAMES: &[&str] = &[
+    "r#raw", "r#", "r#type", "type", "a-b", "a_b", "λ", "ключ", "1x", "#t", "#f", "nil", "t", "a.b", "(", ")", " ", "", "A", "CamelCase", "with space", ":k", "k:", "#:k", "|", "\"", "a\"b", "\\", ";c", "'q", "..", "...", "-", "+1", "1", "1.5", "#u8", "#\\a", "é", "\u{1F600}",
+];
+#[derive(Debug, Clone)]
+struct Named {
+    kind: u8,
+    name: &'static str,
+}
+impl serde::Serialize for Named {
+    fn serialize<S: serde::Serializer>(&self, ser: S) -> Result<S::Ok, S::Error> {
+        use serde::ser::{SerializeStruct, SerializeStructVariant, SerializeTupleVariant};
+        match self.kind {
+            0 => ser.serialize_unit_variant("E", 0, self.name),
+            1 => ser.serialize_newtype_variant("E", 1, self.name, &7u8),
+            2 => {
+                let mut c = ser.serialize_tuple_variant("E", 2, self.name, 2)?;
+                c.serialize_field(&1u8)?;
+                c.serialize_field("x")?;
+                c.end()
+            }
+            3 => {
+                let mut c = ser.serialize_struct_variant("E", 3, self.name, 2)?;
+                c.serialize_field(self.name, &1u8)?;
+                c.serialize_field("plain", &2u8)?;
+                c.end()
+            }
+            4 => {
+                let mut c = ser.serialize_struct(self.name, 2)?;
+                c.serialize_field(self.name, &1u8)?;
+                c.serialize_field("plain", &2u8)?;
+                c.end()
+            }
+            5 => ser.serialize_unit_struct(self.name),
+            6 => ser.serialize_newtype_struct(self.name, &7u8),
+            _ => {
+                let mut m = std::collections::BTreeMap::new();
+                m.insert(self.name, 1u8);
+                serde::Serialize::serialize(&m, ser)
+            }
+        }
+    }
+}
+
+fn check_names_sweep(ctx: &mut Ctx) {
+    let none: AlikeCase = Vec::new();
+    for (ni, name) in ODD_NAMES.iter().enumerate() {
+        for kind in 0u8..8 {
+            let x = Named { kind, name };
+            let r = check_shape_only("Named", &x, &none).map(|_| Eval::new(true, digest_of(&(kind, name))).class("names-sweep")).map_err(|mut f| {
+                f.case = json!({"named": [kind, ni]});
+                f.signature = format!("{} position={}", f.signature, ["unit-variant", "newtype-variant", "tuple-variant", "struct-variant+field", "struct-field", "unit-struct", "newtype-struct", "map-key"][kind as usize]);
+                f
+            });
+            ctx.observe("names-sweep", r);
+        }
+    }
+    ctx.flush_failures();
+}
+
 fn check_arity_sweep(ctx: &mut Ctx) {
     let none: AlikeCase = Vec::new();
     for kind in 0u8..7 {
@@ -393,6 +454,7 @@ fn run(ctx: &mut Ctx) {
         sweep!(i8, i16, i32, i64, u8, u16, u32, u64);
     }
     check_arity_sweep(ctx);
+    check_names_sweep(ctx);
     ctx.run_prop("alike-keys", tier.pick(3000, 100_000), g_alike(), check_alike);
     let x = (vec![1u8, 2], (3i8, 4i8));
     ctx.add_sample("shape", json!({"type": "(Vec<u8>,(i8,i8))", "documented": serde_lexpr::to_string(&x).unwrap_or_default(), "flipped node 0": "((1 2) #(3 4)) / #(#(1 2) #(3 4))", "improper": "#((1 2 . 5) #(3 4))"}));
@@ -417,6 +479,15 @@ impl<'a> TypeVisitor for Replay<'a> {
 }
 
 fn replay(_sub: &str, case: &Json) -> Option<CaseResult> {
+    if let Some(a) = case.get("named") {
+        let t: (u8, usize) = serde_json::from_value(a.clone()).ok()?;
+        let x = Named { kind: t.0, name: ODD_NAMES.get(t.1)? };
+        let none: AlikeCase = Vec::new();
+        return Some(check_shape_only("Named", &x, &none).map(|_| Eval::new(true, digest_of(&t)).class("names-sweep")).map_err(|mut f| {
+            f.case = json!({"named": [t.0, t.1]});
+            f
+        }));
+    }
     if let Some(a) = case.get("arity") {
         let t: (u8, usize, u8) = serde_json::from_value(a.clone()).ok()?;
         let a = Arity { kind: t.0, len: t.1, honest: t.2 != 0 };
